@@ -170,7 +170,7 @@ impl Property for C08 {
         Some(crate::FuzzSpec { label: "c08-ws", max_len: 700, runs: 3000 })
     }
     fn run(&self, ctx: &mut Ctx) {
-        let cases = ctx.tier.pick(250, 6_000);
+        let cases = ctx.tier.pick(1_500, 6_000);
         ctx.run_streams("c08-ws", cases, 700, |ctx, bytes| {
             ctx.mark(&json!({"stream": hex(bytes)}));
             let mut c = Choices::new(bytes);
